@@ -196,11 +196,15 @@ class StatefulDistributedSampler(torch.utils.data.distributed.DistributedSampler
         self.next_yielded = None
 
     def __iter__(self):
+        # Bring the position up to date now, not when the first index is requested,
+        # so that a state_dict() taken right after iter() describes this iterator
         self.yielded = 0
         if self.next_yielded is not None:
             self.yielded = self.next_yielded
             self.next_yielded = None
-        it = super().__iter__()
+        return self._iterate(super().__iter__())
+
+    def _iterate(self, it):
         for idx in itertools.islice(it, self.yielded, None):
             self.yielded += 1
             yield idx
